@@ -86,8 +86,8 @@ PLANS = {
     # name: (docs, ops, depth, depth>=2 ops)
     "quick": lambda prop: [
         ("stack<=1 depth1 all-ops", e2.docs(1), e2.ops(), 1, None),
-        ("stack=2 depth1 canon", [d for d in e2.docs(2, layouts=("canon",)) if len(d.stack) == 2], e2.ops(values=["9", "{ k = 1; }", "u", ""]), 1, None),
-        ("rep depth2", [e2.Doc(b, st, "canon") for b in e2.BODIES for st in REP_STACKS], e2.ops(), 2, e2.ops(e2.SMALL_PATHS, e2.SMALL_VALUES)),
+        ("stack=2 depth1 canon", [d for d in e2.docs(2, bodies=["inline", "attrpath", "empty", "nested"], wrappers=["lamf", "lam", "let1", "let2", "with", "assert", "paren", "call"], layouts=("canon",)) if len(d.stack) == 2], e2.ops(values=["9", "{ k = 1; }", "u", ""]), 1, None),
+        ("rep depth2", [e2.Doc(b, st, "canon") for b in e2.BODIES for st in REP_STACKS[:4]], e2.ops(values=["9", "{ k = 1; }", "u", ""]), 2, e2.ops(e2.SMALL_PATHS, e2.SMALL_VALUES)),
     ],
     "thorough": lambda prop: [
         ("stack<=3 depth1", e2.docs(3, layouts=("canon",)) + e2.docs(2, layouts=("oneline",)), e2.ops(), 1, None),
@@ -99,7 +99,7 @@ C09_PLANS = {
     "quick": lambda: [("layers 0..3 depth2", c09_docs(3), [("set", p, v) for p in C09_PATHS for v in C09_VALUES] + [("rm", p, None) for p in C09_PATHS], 2, None)],
     "thorough": lambda: [("layers 0..4 depth3", c09_docs(4), [("set", p, v) for p in C09_PATHS for v in C09_VALUES] + [("rm", p, None) for p in C09_PATHS], 3, None)],
 }
-FOLLOWUPS = [("set", "a", "9"), ("set", "z", "9"), ("rm", "a", None), ("set", "@u", "9"), ("rm", "@u", None), ("set", "a.z", "9")]
+FOLLOWUPS = [("set", "a", "9"), ("rm", "a", None), ("set", "@u", "9"), ("set", "a.z", "9")]
 FOLLOWUP_MAX_STACK = 1  # the differential follow-up layer is run from documents with at most this many wrappers
 
 # --------------------------------------------------------------------------- evaluation of one transition
@@ -141,8 +141,11 @@ def evaluate(prop, doc, hist):
     elif prop == "C06":
         found = e2.oracle_c06(outcome)
     elif prop == "C08":
-        fu = FOLLOWUPS if len(getattr(doc, "stack", ())) <= FOLLOWUP_MAX_STACK else ()
+        fu = FOLLOWUPS if (len(getattr(doc, "stack", ())) <= FOLLOWUP_MAX_STACK and getattr(doc, "layout", "canon") == "canon" and len(hist) <= 1) else ()
         found = e2.oracle_c08(doc_text, hist[:-1], op, before, src, outcome, fu)
+        if outcome[0] == "ok" and expectation[0] == "fail":
+            # an edit that cannot be applied must be refused loudly
+            found.append(("not-refused", f"model: must be refused ({expectation[1]}); returned {outcome[1]!r}"))
         if outcome[0] == "err":
             src = None  # consumed by the follow-ups
     key_after = None
